@@ -483,7 +483,7 @@ pub fn build(g: &Grammar, thorough: bool) -> Vec<Lock> {
 pub fn run(tier: &str) -> Run {
     let mut run = Run::new("C06", tier);
     let g = corpus::grammar();
-    let thorough = tier == "thorough";
+    let thorough = crate::util::wide(tier);
     let cases = build(&g, thorough);
     let scratch = {
         let base = if std::path::Path::new("/dev/shm").is_dir() { "/dev/shm".to_string() } else { std::env::temp_dir().to_string_lossy().into_owned() };
